@@ -89,6 +89,10 @@ def _case(draw):
             for g in marks[k:]:
                 g["width"] = 0
             skip = sorted(set(skip[:2]) - {g["name"] for g in marks[k:]} | {g["name"] for g in marks[:k]})
+        if draw(st.integers(0, 3)) == 0:
+            # the category map names non-exported glyphs only: the font still counts as categorised (nothing else is a base or a mark for the writers)
+            spec["lib"]["public.openTypeCategories"] = {n: ("mark" if n in c05.MARKS else "base") for n in skip}
+            spec["_cats_only_skipped"] = True
         # mark anchors so that mark positioning exists too - only together with explicit categories: kerning on glyphs that are GDEF
         # marks merely by feaLib inference is the known finding KF-C05-2 and would make both compiles differ for unrelated reasons
         for g in spec["glyphs"] if "public.openTypeCategories" in spec["lib"] else []:
@@ -96,7 +100,11 @@ def _case(draw):
                 g["anchors"] = [{"name": "_top", "x": draw(st.integers(-50, 50)), "y": draw(st.integers(400, 600))}]
             elif g["unicodes"] and draw(st.booleans()):
                 g["anchors"] = [{"name": "top", "x": draw(st.integers(100, 400)), "y": draw(st.integers(500, 800))}]
-        return {"mode": mode, "module": module, "spec": spec, "skip": sorted(skip), "how": draw(st.sampled_from(["lib", "arg"]))}
+        only = spec.pop("_cats_only_skipped", False)
+        case = {"mode": mode, "module": module, "spec": spec, "skip": sorted(skip), "how": draw(st.sampled_from(["lib", "arg"]))}
+        if only:
+            case["categories_name_skipped_glyphs_only"] = True
+        return case
     if mode == "masters-union":
         spec = draw(gen.outline_font(max_glyphs=6, kinds=("line", "curve"), allow_open=False))
         for g in spec["glyphs"]:
@@ -374,6 +382,8 @@ def run_static_layout(case, ctx):
     if nacross[0]:
         ctx.count("pairs-compared-across-a-non-spacing-mark", nacross[0])
         ctx.label("kerning-across-non-spacing-mark")
+    if case.get("categories_name_skipped_glyphs_only"):
+        ctx.label("categories-name-skipped-glyphs-only")
     if any(width[n] and n in c05.MARKS for n in skip) and "public.openTypeCategories" in spec["lib"]:
         ctx.label("skipped-spacing-mark")
     if any(m in skip for ms in spec["groups"].values() for m in ms):
